@@ -40,6 +40,20 @@ def gen_types(rng):
     return lines, types
 
 
+def bound_text(rng, n):
+    """a constant array bound written as text: mostly the integer itself, sometimes a fractional constant that ROUNDS to it
+    (DIM a(3.5) has the upper bound 4, DIM a(-0.6 TO 2) the lower bound -1; ties go to the even neighbour)"""
+    if rng.random() < 0.8:
+        return str(n)
+    forms = [f'{n - 0.4:.1f}', f'{n + 0.4:.1f}', f'{n + 0.25}']
+    if n % 2 == 0:
+        forms += [f'{n + 0.5}', f'{n - 0.5}', f'({2 * n + 1} / 2)']
+    else:
+        forms += [f'({2 * n + 1} / 2 - 0.75)']
+    t = rng.choice(forms)
+    return t if not t.startswith('-') else f'({t})'
+
+
 def gen_decl(rng, types, idx, allow_dyn=False, bias=None):
     """-> (name, declaration text, shape) ; shape = ('s', type) | ('a', type, dims) ; type = builtin name or record name.
     bias = a record type name: most declarations become arrays of that record (search mode)"""
@@ -51,7 +65,7 @@ def gen_decl(rng, types, idx, allow_dyn=False, bias=None):
             lo = rng.choice([0, 1, -3, 10, -1])
             dims.append((lo, lo + rng.randint(0, 3)))
         name = f'av{idx}'
-        dtxt = ', '.join(f'{lo} TO {hi}' for lo, hi in dims)
+        dtxt = ', '.join(f'{bound_text(rng, lo)} TO {bound_text(rng, hi)}' for lo, hi in dims)
         return name, f'DIM {name}({dtxt}) AS {bias}', ('a', bias, dims)
     if r < 0.3:
         t = rng.choice(TYPES)
@@ -66,7 +80,7 @@ def gen_decl(rng, types, idx, allow_dyn=False, bias=None):
         lo = rng.choice([0, 1, -3, 10, -1])
         dims.append((lo, lo + rng.randint(0, 2)))
     name = f'av{idx}' + (TC[t] if t in TYPES else '')
-    dtxt = ', '.join(f'{lo} TO {hi}' for lo, hi in dims)
+    dtxt = ', '.join(f'{bound_text(rng, lo)} TO {bound_text(rng, hi)}' for lo, hi in dims)
     decl = f'DIM {name}({dtxt})' + (f' AS {t}' if t not in TYPES else '')
     return name, decl, ('a', t, dims)
 
